@@ -608,7 +608,7 @@ pub fn run(a: &Args) {
     let mut rng = Rng::new(a.seed ^ 0x17);
     corpus(&mut out);
     for _ in 0..a.n {
-        run_random_sequence(&mut out, &mut rng, "C17", &gen);
+        run_random_sequence(&mut out, &mut rng, "C17", &gen, 5);
     }
     let n_states = (a.n / 50).clamp(20, 1000);
     oracle_sweep(&mut out, &mut rng, n_states);
